@@ -206,7 +206,7 @@ fn files_at(base: &Files, events: &[Ev], upto: usize, rename_lenient_old: bool) 
 
 /// Independent reader of the `len | payload | crc32` framing: returns end offsets of the
 /// valid records starting at `from`, stopping at the first invalid one.
-fn valid_record_ends(bytes: &[u8], from: usize) -> Vec<usize> {
+pub(crate) fn valid_record_ends(bytes: &[u8], from: usize) -> Vec<usize> {
     let mut out = Vec::new();
     let mut pos = from;
     loop {
